@@ -7,21 +7,25 @@
 (*                   close                       (pinned commit)               *)
 (* Variant "fixed" : load; [edit]; encode; open(T,"wb"); write; close;         *)
 (*                   os.replace(T, M)            (after the repair)            *)
+(* Variant "notrunc": as fixed but the temporary file is opened without        *)
+(*                   truncation (a seeded defect): safe for one edit, unsafe   *)
+(*                   for an edit that follows an interrupted one (Restart).    *)
 EXTENDS Core, FsModel
 CONSTANTS Variant
 
-Op(kind, p, p2, d) == [kind |-> kind, p |-> p, p2 |-> p2, d |-> d]
+Op(kind, p, p2, d) == [kind |-> kind, p |-> p, p2 |-> p2, d |-> d, n |-> -1]
 \* "ENC" is the (pure) encoding step: it raises for unencodable values and touches nothing
 Program == IF Variant = "code"
            THEN <<Op("remove", "M", "", ""), Op("ENC", "", "", ""), Op("open_trunc", "M", "", ""),
                   Op("write", "M", "", "New"), Op("close", "M", "", "")>>
-           ELSE <<Op("ENC", "", "", ""), Op("open_trunc", "T1", "", ""), Op("write", "T1", "", "New"),
+           ELSE <<Op("ENC", "", "", ""), Op(IF Variant = "notrunc" THEN "open_create" ELSE "open_trunc", "T1", "", ""),
+                  Op("write", "T1", "", "New"),
                   Op("close", "T1", "", ""), Op("rename", "T1", "M", "")>>
 
-VARIABLES fs, pc, status, encodable
-vars == <<fs, pc, status, encodable>>
+VARIABLES fs, pc, status, encodable, round
+vars == <<fs, pc, status, encodable, round>>
 
-Init == /\ fs = EmptyFs("Old") /\ pc = 1 /\ status = "running" /\ encodable \in BOOLEAN
+Init == /\ fs = EmptyFs("Old") /\ pc = 1 /\ status = "running" /\ encodable \in BOOLEAN /\ round = 1
 Running == status = "running" /\ pc <= Len(Program)
 StepOp == /\ Running
           /\ LET op == Program[pc] IN
@@ -29,15 +33,23 @@ StepOp == /\ Running
              THEN IF encodable THEN fs' = fs /\ pc' = pc + 1 /\ status' = status
                   ELSE fs' = fs /\ pc' = pc /\ status' = "error"          \* EncodeError propagates
              ELSE fs' = Apply(fs, op) /\ pc' = pc + 1 /\ status' = status
-          /\ UNCHANGED encodable
-Finish == /\ status = "running" /\ pc > Len(Program) /\ status' = "done" /\ UNCHANGED <<fs, pc, encodable>>
-Crash == /\ Running /\ status' = "crashed" /\ UNCHANGED <<fs, pc, encodable>>
+          /\ UNCHANGED <<encodable, round>>
+Finish == /\ status = "running" /\ pc > Len(Program) /\ status' = "done" /\ UNCHANGED <<fs, pc, encodable, round>>
+Crash == /\ Running /\ status' = "crashed" /\ UNCHANGED <<fs, pc, encodable, round>>
 Fail == /\ Running /\ Program[pc].kind # "ENC"            \* the operation raises OSError, edit returns the error
-        /\ status' = "error" /\ UNCHANGED <<fs, pc, encodable>>
+        /\ status' = "error" /\ UNCHANGED <<fs, pc, encodable, round>>
 TornWrite == /\ Running /\ Program[pc].kind = "write"
              /\ \E k \in {0, 1} : fs' = Torn(fs, Program[pc], k)
-             /\ status' \in {"error", "crashed"} /\ UNCHANGED <<pc, encodable>>
-Next == StepOp \/ Finish \/ Crash \/ Fail \/ TornWrite
+             /\ status' \in {"error", "crashed"} /\ UNCHANGED <<pc, encodable, round>>
+\* a later edit in the same directory after an interrupted or failed one: what is at M now is
+\* its "Old"; whatever the first run left elsewhere is still there (length unknown)
+Relabel(f) == [c |-> [p \in DOMAIN f.c |-> IF p = "M" THEN "Old"
+                                           ELSE IF f.c[p] \in {"Absent", "Empty"} THEN f.c[p] ELSE "Other"],
+               pend |-> [p \in DOMAIN f.pend |-> NoPend], sz |-> [p \in DOMAIN f.sz |-> -1]]
+Restart == /\ status \in {"crashed", "error"} /\ round = 1 /\ Safe(fs)
+           /\ fs' = Relabel(fs) /\ pc' = 1 /\ status' = "running" /\ round' = 2
+           /\ encodable' \in BOOLEAN
+Next == StepOp \/ Finish \/ Crash \/ Fail \/ TornWrite \/ Restart
 Spec == Init /\ [][Next]_vars
 
 \* C17: at every point the metafile path holds the complete old or the complete new metafile
